@@ -18,6 +18,7 @@ from py_gql.schema import (
     ListType,
     NonNullType,
     ObjectType,
+    ScalarType,
     UnionType,
 )
 from py_gql.schema.transforms import (
@@ -99,6 +100,11 @@ def attributes(schema):
             a["default_resolver"] = t.default_resolver
         if isinstance(t, (InterfaceType, UnionType)):
             a["resolve_type"] = t.resolve_type
+        if isinstance(t, ScalarType):
+            # the Python side of a custom scalar (callables, by identity)
+            a["serialize"] = getattr(t, "_serialize", None)
+            a["parse"] = getattr(t, "_parse", None)
+            a["parse_literal"] = getattr(t, "_parse_literal", None)
         out[("type", tname)] = a
         if isinstance(t, (ObjectType, InterfaceType)):
             for f in t.fields:
@@ -811,7 +817,6 @@ def run_machine(draws, state, tier):
             names = sorted(
                 n for n in gql_names(src.schema)
                 if not n[1].startswith("__")
-                and not (n[0] == "type" and n[1] in _struct.SPECIFIED)
                 and not (n[0] == "directive"
                          and n[1] in _struct.SPECIFIED_DIRECTIVES)
                 and n[0] != "arg"
@@ -848,6 +853,13 @@ def run_machine(draws, state, tier):
                                                     err))
             break
         res.count("op:" + opname)
+        if hidden is not None and hidden[0] == "type" and \
+                hidden[1] in _struct.SPECIFIED:
+            # specified scalars cannot be hidden: asking for it removes
+            # NOTHING (not the type, not the fields / input fields / arguments
+            # of that type)
+            res.count("probe:hide_specified_scalar")
+            hidden = None
 
         # ---- source untouched (clone-based operations) -------------------
         if op in (0, 1, 2, 3, 6):
